@@ -17,6 +17,10 @@ pub struct Case {
     pub app: AppDesc,
     pub order_seed: u64,
     pub requests: Vec<Req>,
+    /// one route of the root application is registered a second time for one of its methods, with another handler: a
+    /// configuration whose outcome could only depend on the registration order — it has to be refused
+    #[serde(default)]
+    pub dup: Option<u16>,
 }
 
 pub enum Built {
@@ -228,16 +232,45 @@ impl Property for C01 {
     }
     fn strategy(&self, tier: Tier) -> BoxedStrategy<Case> {
         let cfg = GenCfg::routing(tier);
-        (gen_app::app_strategy(cfg), any::<u64>(), vec(gen_app::recipe(), 1..=25))
-            .prop_map(|(app, order_seed, recipes)| {
+        (gen_app::app_strategy(cfg), any::<u64>(), vec(gen_app::recipe(), 1..=25), prop::option::weighted(0.03, any::<u16>()))
+            .prop_map(|(app, order_seed, recipes, dup)| {
                 let flat = flatten(&app);
                 let requests = recipes.iter().map(|r| gen_app::concretize(&flat, r)).collect();
-                Case { app, order_seed, requests }
+                Case { app, order_seed, requests, dup }
             })
             .boxed()
     }
 
     fn check(&self, case: &Case, obs: &mut Obs) {
+        if let Some(k) = case.dup {
+            use crate::harness::app::{HandlerDesc, Item, RouteItem};
+            let routes: Vec<&RouteItem> = case.app.items.iter().filter_map(|it| if let Item::Route(r) = it { Some(r) } else { None }).filter(|r| !r.handlers.is_empty()).collect();
+            if !routes.is_empty() {
+                let r = routes[k as usize % routes.len()];
+                let (m, h) = &r.handlers[(k as usize / 7) % r.handlers.len()];
+                let twin = Item::Route(RouteItem { segs: r.segs.clone(), handlers: vec![(*m, HandlerDesc { id: 9_999_999, arity: h.arity, locals: vec![], local_pat: 0 })] });
+                let mut app = case.app.clone();
+                app.items.push(twin);
+                obs.evals += 1;
+                obs.nontrivial = true;
+                for order in [None, Some(case.order_seed)] {
+                    match build_router(&app, order) {
+                        Built::Refused(_) => {}
+                        Built::Ok(_) => {
+                            obs.fail("conflicting-registration-accepted", format!("{} {:?} is registered twice with different handlers (registration order {:?}) and the application was built: which handler runs can only depend on the order", m.as_str(), r.segs, order));
+                            return;
+                        }
+                        Built::Panicked(f) => {
+                            obs.failures.push(f);
+                            return;
+                        }
+                    }
+                }
+                obs.label("duplicate-registration-refused");
+                obs.rejected_config = true;
+                return;
+            }
+        }
         let flat = flatten(&case.app);
         let a = build_router(&case.app, None);
         let b = build_router(&case.app, Some(case.order_seed));
